@@ -18,15 +18,19 @@ import (
 const tfAck = 0x1000
 
 type c11Case struct {
-	Followers int      `json:"f"`
-	Mode      uint     `json:"m"`     // 0 all (mixed), 1 majority, 2 all
-	Fates     []string `json:"fates"` // per follower: deliver | held | late | cut | negative (the follower cannot apply the record and says so) | disk-error (the follower cannot write the record to its own log)
-	Interf    string   `json:"i"`     // none | duplicate | unlock | waiter-behind | demote
-	Value     bool     `json:"v"`
-	FromQueue bool     `json:"q"` // the ack lock is granted from the wait queue
+	Followers  int      `json:"f"`
+	Mode       uint     `json:"m"`     // 0 all (mixed), 1 majority, 2 all
+	Fates      []string `json:"fates"` // per follower: deliver | held | late | cut | negative (the follower cannot apply the record and says so) | disk-error (the follower cannot write the record to its own log)
+	Interf     string   `json:"i"`     // none | duplicate | unlock | waiter-behind | demote
+	Value      bool     `json:"v"`
+	FromQueue  bool     `json:"q"`            // the ack lock is granted from the wait queue
+	LeaderDisk string   `json:"ld,omitempty"` // "error": from the request on every write to the LEADER's own data directory is refused
 }
 
 func (c c11Case) name() string {
+	if c.LeaderDisk != "" {
+		return fmt.Sprintf("f%d/mode%d/%s/%s/value=%v/queue=%v/leader-disk-%s", c.Followers, c.Mode, strings.Join(c.Fates, ","), c.Interf, c.Value, c.FromQueue, c.LeaderDisk)
+	}
 	return fmt.Sprintf("f%d/mode%d/%s/%s/value=%v/queue=%v", c.Followers, c.Mode, strings.Join(c.Fates, ","), c.Interf, c.Value, c.FromQueue)
 }
 
@@ -62,8 +66,20 @@ func c11Cases(quick bool) []EnumCase {
 							if quick && f == 2 && (val != q) {
 								continue
 							}
-							c := c11Case{f, mode, fs, in, val, q}
+							c := c11Case{f, mode, fs, in, val, q, ""}
 							out = append(out, mkCase(c.name(), c))
+							allDeliver := true
+							for _, x := range fs {
+								allDeliver = allDeliver && x == "deliver"
+							}
+							if in == "none" && allDeliver {
+								// the followers acknowledge, the leader's own log write fails
+								c.LeaderDisk = "error"
+								out = append(out, mkCase(c.name(), c))
+								// ... after having taken a second (the followers' acknowledgements arrive meanwhile)
+								c.LeaderDisk = "slow-error"
+								out = append(out, mkCase(c.name(), c))
+							}
 						}
 					}
 				}
@@ -147,8 +163,14 @@ func evalC11(c *Ctx, cs EnumCase) EnumResult {
 				badDisk[fmt.Sprintf("/n%d/", i+1)] = true
 			}
 		}
+		if k.LeaderDisk != "" {
+			badDisk["/n0/"] = true
+		}
 		if len(badDisk) > 0 {
 			vos.Cur().ShortWrite = func(p vos.FSPoint, n int) int {
+				if k.LeaderDisk == "slow-error" && strings.Contains(p.Path, "/n0/") {
+					vrt.Sleep(1000 * ms)
+				}
 				for d := range badDisk {
 					if strings.Contains(p.Path, d) {
 						return 0
@@ -244,6 +266,9 @@ func evalC11(c *Ctx, cs EnumCase) EnumResult {
 		}
 		waitingAt200 := early < k.required() // still waiting when the interference happens
 		expectOK := acks >= k.required()
+		if k.LeaderDisk != "" {
+			expectOK = false // the record never reaches the leader's own log
+		}
 		// a demotion that starts while acknowledgements are outstanding first waits for the followers; if the
 		// acknowledgements do arrive the request may still succeed (the record is logged and acknowledged),
 		// so both outcomes are accepted there
@@ -266,7 +291,9 @@ func evalC11(c *Ctx, cs EnumCase) EnumResult {
 		if got.Result == 0 {
 			// a success is only legal after the log write and the required acknowledgements
 			needed := k.required()
-			if !expectOK && !either {
+			if k.LeaderDisk != "" {
+				add("succeeded-without-own-log-write", fmt.Sprintf("reported SUCCED although every write to the leader's own log has failed since the request was made (the %d follower acknowledgements alone filled the counter of %d)", k.Followers, needed))
+			} else if !expectOK && !either {
 				add("succeeded-without-quorum", fmt.Sprintf("reported SUCCED although only %d of the %d required acknowledgements (log write included) can have arrived", acks, needed))
 			} else if lateNeeded && early < needed && got.Lock != nil {
 				// the deciding acknowledgement was released at t0+1.5 s: SUCCED must not have been sent before
